@@ -71,6 +71,16 @@ CHECKS = {
             "Key sets are constructed (not sampled) so that page overflow, repeated growth and index-identical groups are the common case; reindex batches are ordinary generated steps interleaved with commits, reads, reopen and crash points; after each drain exactly one index file must remain with every model key exactly once.",
             "Zero-salt identity hashing is the repository's own test device; growth bounded to 19 bits for file-size reasons.",
             "DESIGN.md 4 C09", "pdbv"),
+    "C13": ("exploration",
+            "generated damage programs (truncate / bit flips / overwrite / append / sub-header cut / zero-length / delete / duplicate / swap) over log files of generated crash images with several un-applied log files; oracle: open Ok without panic, observed state == a prefix between enacted and committed, stable across a second reopen; thorough adds a coverage-guided fuzz target over the same decoder",
+            "Damage of every class the property names is generated against images that really hold 1-4 un-applied log files; the oracle is the prefix set of the model with the 'not older than the tables' lower bound. Two known findings (missing replay anchor) are excluded by construction, counted, and reproduced by fixed regression histories.",
+            "Checksum-forging inputs are not generated; damage to already-applied log files and to the anchor record of a non-last file is the recorded known finding.",
+            "DESIGN.md 4 C13", "pdbv"),
+    "C16": ("fault_enumeration",
+            "fault enumeration: every file-operation index of every pipeline step of generated histories fails (and keeps failing) via the library's injector; oracle: error reported by the failing call, no panic incl. drop, reads == model of all commits, restart recovers a prefix >= synced and accepts commits",
+            "All fault positions inside each op of each generated history (sampled above a cap); differs from C02 in that the handle survives the fault, must keep serving reads, must report the error, and the SAME directory is reopened after the fault is gone.",
+            "Injector = the library's try_io! sites on the calling thread (stepping mode); reads are issued with the injector paused.",
+            "DESIGN.md 4 C16", "pdbv"),
 }
 
 NOT_YET = {
